@@ -18,7 +18,7 @@ HERE = os.path.dirname(os.path.dirname(os.path.abspath(__file__)))
 
 
 def sh(cmd, **kw):
-    return subprocess.run(cmd, shell=True, capture_output=True, text=True, **kw)
+    return subprocess.run(cmd, shell=True, capture_output=True, text=True, errors="replace", **kw)
 
 
 def main():
@@ -57,7 +57,7 @@ def main():
             shutil.copytree(os.path.join(HERE, "lean"), lean)
             ev = os.path.join(w, "ev_" + p)
             env = dict(os.environ, VERIF_REPO=mut, VERIF_LEAN_DIR=lean, VERIF_EVIDENCE_DIR=ev)
-            r = subprocess.run([os.path.join(HERE, "check"), p, "--tier", "quick"], capture_output=True, text=True, env=env, timeout=3600)
+            r = subprocess.run([os.path.join(HERE, "check"), p, "--tier", "quick"], capture_output=True, text=True, errors="replace", env=env, timeout=3600)
             viol = [l for l in r.stdout.splitlines() if l.startswith("VIOLATION")]
             first = ""
             rp = os.path.join(ev, "replay", p + "_0.txt")
